@@ -33,7 +33,7 @@ func (p *Prog) structFieldLeaves(v ssa.Value, f int, depth int) ([]aggLeaf, bool
 		if !ok {
 			return aggFail(3)
 		}
-		return p.localStructFieldLeaves(al, f, depth)
+		return p.localStructFieldLeaves(al, f, depth, x)
 	case *ssa.Index:
 		elems, ok := p.arrayElemValues(x.X, f, depth+1)
 		if !ok {
@@ -87,7 +87,7 @@ func (p *Prog) structFieldLeaves(v ssa.Value, f int, depth int) ([]aggLeaf, bool
 
 // localStructFieldLeaves: what field f of the local struct variable al may hold: every use of al is a whole-struct
 // store, a whole-struct load, or a field address that is only stored through (field f: the value) or loaded from.
-func (p *Prog) localStructFieldLeaves(al *ssa.Alloc, f int, depth int) ([]aggLeaf, bool) {
+func (p *Prog) localStructFieldLeaves(al *ssa.Alloc, f int, depth int, at ssa.Instruction) ([]aggLeaf, bool) {
 	if al.Referrers() == nil {
 		return aggFail(10)
 	}
@@ -95,6 +95,18 @@ func (p *Prog) localStructFieldLeaves(al *ssa.Alloc, f int, depth int) ([]aggLea
 		return aggFail(11)
 	}
 	var out []aggLeaf
+	// the field must have been given a value on every path to the read
+	covered := false
+	before := func(st *ssa.Store) bool {
+		if at == nil || at.Block() == nil {
+			return false
+		}
+		if st.Block() == at.Block() {
+			return instrIndex(st) < instrIndex(at)
+		}
+		return st.Block().Dominates(at.Block())
+	}
+	defer func() { _ = covered }()
 	for _, r := range *al.Referrers() {
 		switch y := r.(type) {
 		case *ssa.DebugRef:
@@ -105,6 +117,9 @@ func (p *Prog) localStructFieldLeaves(al *ssa.Alloc, f int, depth int) ([]aggLea
 		case *ssa.Store:
 			if y.Addr != ssa.Value(al) {
 				return aggFail(13) // the address escapes
+			}
+			if before(y) {
+				covered = true
 			}
 			ls, ok := p.structFieldLeaves(y.Val, f, depth+1)
 			if !ok {
@@ -127,6 +142,9 @@ func (p *Prog) localStructFieldLeaves(al *ssa.Alloc, f int, depth int) ([]aggLea
 						return aggFail(16)
 					}
 					if y.Field == f {
+						if before(z) {
+							covered = true
+						}
 						out = append(out, aggLeaf{z.Val, al.Parent()})
 					}
 				default:
@@ -136,6 +154,9 @@ func (p *Prog) localStructFieldLeaves(al *ssa.Alloc, f int, depth int) ([]aggLea
 		default:
 			return aggFail(18)
 		}
+	}
+	if !covered {
+		return aggFail(18)
 	}
 	return out, len(out) > 0
 }
@@ -183,6 +204,14 @@ func (p *Prog) arrayElemValues(v ssa.Value, f int, depth int) ([]aggElem, bool) 
 		}
 		whole := map[int64]bool{}
 		var out []aggElem
+		// an index counts as filled only by a store that is made on every path to the load of the array (a store
+		// under a condition leaves the zero value on the other path)
+		before := func(st *ssa.Store) bool {
+			if st.Block() == x.Block() {
+				return instrIndex(st) < instrIndex(x)
+			}
+			return st.Block().Dominates(x.Block())
+		}
 		for _, r := range *al.Referrers() {
 			switch y := r.(type) {
 			case *ssa.DebugRef:
@@ -202,7 +231,9 @@ func (p *Prog) arrayElemValues(v ssa.Value, f int, depth int) ([]aggElem, bool) 
 						if z.Addr != ssa.Value(y) {
 							return aggFailE(27)
 						}
-						whole[k] = true
+						if before(z) {
+							whole[k] = true
+						}
 						out = append(out, aggElem{z.Val, -1, al.Parent()})
 					case *ssa.FieldAddr:
 						// the element built in place, field by field
@@ -217,7 +248,9 @@ func (p *Prog) arrayElemValues(v ssa.Value, f int, depth int) ([]aggElem, bool) 
 									return aggFailE(27)
 								}
 								if z.Field == f {
-									whole[k] = true
+									if before(w) {
+										whole[k] = true
+									}
 									out = append(out, aggElem{w.Val, f, al.Parent()})
 								}
 							default:
@@ -251,7 +284,7 @@ func (p *Prog) aggFieldStrongNonNil(ld *ssa.UnOp) bool {
 	if !ok {
 		return false
 	}
-	leaves, ok := p.localStructFieldLeaves(al, fa.Field, 0)
+	leaves, ok := p.localStructFieldLeaves(al, fa.Field, 0, ld)
 	if os.Getenv("MQV_AGG") != "" {
 		fmt.Fprintf(os.Stderr, "agg %s field %d: ok=%v leaves=%d\n", al.Parent(), fa.Field, ok, len(leaves))
 	}
